@@ -828,3 +828,14 @@ silent('s-loop1-default-inside-loop', ['C14'], 'ImportName._dotted_as_names: the
 fire('tok14-fast-path-above-first-line-block', ['C03', 'C09'], ['TOK-14'], 'blank lines are appended to the pending prefix by a fast path that continues above the first-line block: the BOM / start column handling runs for a later line',
      (TOK, "        pos = 0\n        max_ = len(line)\n        if is_first_token:\n", "        pos = 0\n        max_ = len(line)\n        if new_line and not contstr and not fstring_stack and line in ('\\n', '\\r\\n', '\\r'):\n            additional_prefix += line\n            continue\n        if is_first_token:\n"),
      (TOK, "                additional_prefix = BOM_UTF8_STRING\n", "                additional_prefix += BOM_UTF8_STRING\n"))
+
+# round 14: the cache
+fire('cache2-stale-memory-entry-falls-through-to-disk', ['C16'], ['CACHE-2'], 'an in-memory entry that is found but outdated no longer ends the lookup: the on-disk entry (judged by the pickle mtime) is consulted (rt14-C16)',
+     (CACHE, "    try:\n        module_cache_item = parser_cache[hashed_grammar][file_io.path]\n        if p_time <= module_cache_item.change_time:\n            module_cache_item.last_used = time.time()\n            return module_cache_item.node\n    except KeyError:\n        return _load_from_file_system(\n            hashed_grammar,\n            file_io.path,\n            p_time,\n            cache_path=cache_path\n        )\n",
+      "    module_cache_item = parser_cache.get(hashed_grammar, {}).get(file_io.path)\n    if module_cache_item is not None and p_time <= module_cache_item.change_time:\n        module_cache_item.last_used = time.time()\n        return module_cache_item.node\n    return _load_from_file_system(\n        hashed_grammar,\n        file_io.path,\n        p_time,\n        cache_path=cache_path\n    )\n"))
+silent('s-cache2-get-lookup', ['C16', 'C17'], 'load_module looks the entry up with .get(); an outdated entry still ends the lookup',
+       (CACHE, "    try:\n        module_cache_item = parser_cache[hashed_grammar][file_io.path]\n        if p_time <= module_cache_item.change_time:\n            module_cache_item.last_used = time.time()\n            return module_cache_item.node\n    except KeyError:\n        return _load_from_file_system(\n            hashed_grammar,\n            file_io.path,\n            p_time,\n            cache_path=cache_path\n        )\n",
+        "    module_cache_item = parser_cache.get(hashed_grammar, {}).get(file_io.path)\n    if module_cache_item is None:\n        return _load_from_file_system(\n            hashed_grammar,\n            file_io.path,\n            p_time,\n            cache_path=cache_path\n        )\n    if p_time <= module_cache_item.change_time:\n        module_cache_item.last_used = time.time()\n        return module_cache_item.node\n    return None\n"))
+fire('cache12-known-directories', ['C17', 'C16'], ['CACHE-12'], 'the cache remembers which version directories it has created in a module-level set (rt14-C17): a directory removed by someone else is never created again',
+     (CACHE, "def _get_cache_directory_path(cache_path=None):\n    if cache_path is None:\n        cache_path = _default_cache_path\n    directory = cache_path.joinpath(_VERSION_TAG)\n    if not directory.exists():\n        os.makedirs(directory)\n    return directory\n",
+      "_known_cache_directories = set()\n\n\ndef _get_cache_directory_path(cache_path=None):\n    if cache_path is None:\n        cache_path = _default_cache_path\n    directory = cache_path.joinpath(_VERSION_TAG)\n    if directory not in _known_cache_directories:\n        os.makedirs(directory, exist_ok=True)\n        _known_cache_directories.add(directory)\n    return directory\n"))
